@@ -57,6 +57,9 @@ def noise_sd(spec, z):
     h = float(n.get("hetero", 0.0))
     if h:
         s = s * (1.0 + h * abs(float(z[0]) - float(spec["c"][0])))
+    if n.get("jitter"):
+        # the reported SD is itself an estimate that varies from call to call (drawn from the seeded global stream)
+        s = s * (1.0 + 0.25 * np.random.rand())
     return s
 
 
